@@ -80,6 +80,9 @@ pub struct IntCase {
     /// for unquoted: sign + decimal digits the literal denotes
     pub denotes: String,
     pub fancy: bool,
+    /// quoted cases: 0 = an ordinary string literal, 1 = `r".."`, 2 = `r#".."#` (the value is what is between the quotes)
+    #[serde(default)]
+    pub raw: u8,
 }
 
 fn meta_of(src: &str) -> Result<syn::Meta, Fail> {
@@ -119,7 +122,15 @@ fn check_err_span(e: &darling_core::Error, m: &syn::Meta, what: &str, src: &str)
 
 pub fn check_int(ctx: &Ctx, c: &IntCase, targets: &[(&'static str, Conv, Std)]) -> Result<(), Fail> {
     fresh_spans();
-    let src = if c.quoted { format!("v = {:?}", c.text) } else { format!("v = {}", c.text) };
+    let src = if c.quoted {
+        match c.raw {
+            1 if !c.text.contains('"') => format!("v = r\"{}\"", c.text),
+            2 if !c.text.contains('"') => format!("v = r#\"{}\"#", c.text),
+            _ => format!("v = {:?}", c.text),
+        }
+    } else {
+        format!("v = {}", c.text)
+    };
     let m = meta_of(&src)?;
     // is the value delivered as a literal? (a negative literal followed by nothing is; syn decides)
     let is_lit = matches!(&m, syn::Meta::NameValue(nv) if matches!(nv.value, syn::Expr::Lit(_)));
@@ -186,7 +197,7 @@ pub fn exhaustive_ints(shard: u64, nshards: u64) -> Vec<IntCase> {
     let mut push = |n: String, out: &mut Vec<IntCase>| {
         for quoted in [false, true] {
             if k % nshards == shard {
-                out.push(IntCase { text: n.clone(), quoted, denotes: n.clone(), fancy: false });
+                out.push(IntCase { text: n.clone(), quoted, denotes: n.clone(), fancy: false, raw: (n.len() % 3) as u8 });
             }
             k += 1;
         }
@@ -274,7 +285,9 @@ pub fn gen_int_lit(d: &mut D) -> IntCase {
     let neg = d.ratio(1, 4);
     if quoted {
         // a quoted string stands as it is: build plausible and implausible spellings
-        let text = match d.below(8) {
+        let text = match d.below(9) {
+            // starts like a literal in another radix but is none (std rejects every one of them, prefix or not)
+            8 => format!("{}{}", if neg { "-" } else { "" }, d.pick(&["0x", "0xZZ", "0o8", "0b12", "0b", "0x_", "0x 1", "0o", "0xg", "0b2", "0x1.5", "1e", "0e0x"])),
             // leading zeros change nothing for std's parsing, however many there are
             6 | 7 => format!("{}{}{}", if neg { "-" } else if d.ratio(1, 4) { "+" } else { "" }, "0".repeat(d.range(1, 70)), dec),
             0 => format!("{}{}", if neg { "-" } else { "" }, dec),
@@ -284,12 +297,12 @@ pub fn gen_int_lit(d: &mut D) -> IntCase {
             4 => format!("{}{}", dec, suffix),
             _ => format!("{}{}", if neg { "-" } else { "" }, body),
         };
-        IntCase { text, quoted: true, denotes: String::new(), fancy: true }
+        IntCase { text, quoted: true, denotes: String::new(), fancy: true, raw: [0u8, 0, 1, 2][d.below(4)] }
     } else {
         // hex digits e/E before a suffix-less end are fine; a decimal literal must not look like a float
         let text = format!("{}{}{}{}", if neg { "-" } else { "" }, prefix, body, suffix);
         let denotes = format!("{}{}", if neg { "-" } else { "" }, dec);
-        IntCase { text, quoted: false, denotes, fancy: radix != 10 || !suffix.is_empty() || body.contains('_') }
+        IntCase { text, quoted: false, denotes, fancy: radix != 10 || !suffix.is_empty() || body.contains('_'), raw: 0 }
     }
 }
 
